@@ -368,9 +368,9 @@ def make_fills(ctx):
             fills.append(gen_fill(rng, sh, "f"))
             continue
         fills.append(gen_fill(rng, sh, "f", nans=1 if n < 4 else 2))
-        if not ctx.quick or n in (3, 4, 9):
+        if not ctx.quick or n in (4, 9):
             fills.append(gen_fill(rng, sh, "f", alphabet=(0, 1, 3)) if n > 1 else gen_fill(rng, sh, "f", nans=1))
-        if len(sh) == 2 and sh[0] >= 2 and (not ctx.quick or n <= 6):
+        if len(sh) == 2 and sh[0] >= 2 and (not ctx.quick or n in (4, 6)):
             fills.append(gen_fill(rng, sh, "f", nan_row=True))
     # distinct
     seen, out = set(), []
@@ -584,10 +584,10 @@ def validate_records(ctx, recs, on_violation=None):
 def run(ctx):
     thorough = not ctx.quick
     fills = make_fills(ctx)
-    cases, _ = enumerate_cases(ctx, fills)
+    cases, _ = enumerate_cases(ctx, fills, orders=ctx.pick("{1, 3}", "{0, 1, 3, 4}"))
     pairs = [(c, ch) for c in cases for ch in c["c"]["chunkings"]]
     total_pairs = len(pairs)
-    cap = ctx.pick(16000, 260000)
+    cap = ctx.pick(12000, 260000)
     sampled = len(pairs) > cap
     if sampled:
         pairs = ctx.rng.sample(pairs, cap)
@@ -604,7 +604,7 @@ def run(ctx):
                 ctx.sample({"case": slim(it[0]), "chunks": it[2], "expected": it[1]})
                 break
     # code -> spec
-    nrec = ctx.pick(1500, 20000)
+    nrec = ctx.pick(1000, 20000)
     recs = [r for r in pmap(_record, [(i, random_case(ctx.rng)) for i in range(nrec)], chunk=32) if r is not None]
     validate_records(ctx, recs)
     ctx.exhaustive = not sampled
